@@ -84,7 +84,7 @@ pub fn parse(s: &str) -> Parsed {
             (format!("{}{}", ip, f), f.len() as u32)
         }
     };
-    if mant_str.len() > 60 {
+    if mant_str.len() > 75 {
         return Parsed::Odd;
     }
     let mant = match U::from_str(mant_str.trim_start_matches('0')) {
@@ -97,11 +97,18 @@ pub fn parse(s: &str) -> Parsed {
             }
         }
     };
-    // rust_decimal holds 96 bits and at most 28 decimals; longer inputs are silently rounded
-    if scale > 28 || mant >= two_pow_96() {
+    // rust_decimal holds 96 bits and at most 28 decimals; longer inputs are silently rounded -
+    // except that trailing zero decimals which do not fit change nothing (measured): the value
+    // is judged after stripping them
+    let d = Dec { neg, mant, scale };
+    let n = d.normalized();
+    if n.scale > 28 || n.mant >= two_pow_96() {
         return Parsed::Odd;
     }
-    Parsed::Ok(Dec { neg, mant, scale })
+    if d.scale > 28 || d.mant >= two_pow_96() {
+        return Parsed::Ok(n);
+    }
+    Parsed::Ok(d)
 }
 
 impl Dec {
